@@ -110,7 +110,9 @@ ConnCh(g, c) == IF c \in DOMAIN g.conns THEN g.conns[c].ch ELSE 0
 ----------------------------------------------------------------------------
 \* folding the balancer's calls on its ClientConn into the ghost
 
-NewConn(av, role, ch) == [av |-> av, st |-> "IDLE", role |-> role, ch |-> ch, rm |-> 0]
+\* seen: a state was reported for the connection (until then `st' is the state a new SubConn starts in, which the balancer records
+\* for pool connections only)
+NewConn(av, role, ch) == [av |-> av, st |-> "IDLE", role |-> role, ch |-> ch, rm |-> 0, seen |-> FALSE]
 NoDet(now) == [lastResp |-> now, de |-> 0, k |-> 0, refreshing |-> FALSE]
 
 \* ctxk: "grow" (resolve / pick), "refresh" (done; h = channel of the completed call), "state"
@@ -175,7 +177,8 @@ GReport(g0, ev) ==
                ELSE IF role = "pool"
                THEN IF ev.s = "SHUTDOWN"
                     THEN [g EXCEPT !.conns[c].st = "SHUTDOWN", !.conns[c].role = "gone", !.chans[h].inPool = FALSE]
-                    ELSE [g EXCEPT !.conns[c].st = ev.s]
+                    ELSE [g EXCEPT !.conns[c].st = ev.s, !.conns[c].seen = TRUE]
+               ELSE IF role = "repl" THEN [g EXCEPT !.conns[c].st = ev.s, !.conns[c].seen = TRUE]     \* a pending replacement that is not READY yet
                ELSE g
          g2 == IF swap \/ role = "pool" THEN [g1 EXCEPT !.agg = Agg(g1)] ELSE g1
          g3 == PruneStand(g2)
@@ -338,6 +341,13 @@ C03(g, ev, g2) ==
      Cl("C03_c", Unkeyed(g, ev) /\ PickerOk(g, ev) /\ g.pubs[ev.pk].st # "TF" /\ PReady(g, ev) # {}
                    /\ Cardinality(PoolOf(g)) >= g.cfg.max,
                  ev.res = "SC"),
+     \* "a channel is added ... by a call that finds every READY channel at or above the watermark ... and that call is told to wait":
+     \* a call without a home that is told to wait although its picker has READY channels waits *for* something - the connection it
+     \* just caused to be created, or a connection that is idle / connecting (a pending replacement included); with none of these
+     \* nothing would ever make the wait end
+     Cl("C03_w", Unkeyed(g, ev) /\ PickerOk(g, ev) /\ g.pubs[ev.pk].st # "TF" /\ PReady(g, ev) # {} /\ ev.res = "NOSC",
+                 \/ \E i \in DOMAIN ev.cc : ev.cc[i].k = "new"          \* created, or tried to (the ClientConn may refuse)
+                 \/ \E c \in DOMAIN g.conns : g.conns[c].st \in {"IDLE", "CONNECTING"} /\ (g.conns[c].role # "repl" \/ g.conns[c].seen)),
      Cl("C03_d", g2.init /\ g2.cfg.min <= g2.cfg.max,
                  Cardinality(PoolOf(g2)) <= g2.cfg.max),
      \* "a refresh may hold one extra connection per refreshing channel until the swap": never two pending replacements of one channel
@@ -490,7 +500,7 @@ Clauses(g, ev, g2) ==
   C01(g, ev, g2) \cup C02(g, ev, g2) \cup C03(g, ev, g2) \cup C04(g, ev, g2) \cup C05(g, ev, g2) \cup C06(g, ev, g2)
   \cup C07(g, ev, g2) \cup C08(g, ev, g2) \cup C09(g, ev, g2) \cup C17(g, ev, g2) \cup C20(g, ev, g2)
 
-ClauseIds == {"C01_a", "C01_b", "C01_d", "C01_u", "C01_u2", "C02_a", "C02_b", "C02_d", "C03_a", "C03_b", "C03_c", "C03_d", "C03_e", "C03_f", "C03_g", "C03_s", "C02_s", "C04_s", "C09_s",
+ClauseIds == {"C01_a", "C01_b", "C01_d", "C01_u", "C01_u2", "C02_a", "C02_b", "C02_d", "C03_a", "C03_b", "C03_c", "C03_d", "C03_e", "C03_f", "C03_g", "C03_w", "C03_s", "C02_s", "C04_s", "C09_s",
               "C04_a", "C04_b", "C04_c", "C04_e", "C04_f", "C05_a", "C05_b", "C06_a", "C06_b", "C06_d",
               "C07_a", "C07_b", "C07_c", "C07_t", "C07_e", "C08_a", "C08_b", "C08_e", "C08_h", "C08_h2",
               "C09_a", "C09_a2", "C09_b", "C09_c", "C09_e", "C09_h", "C17_e", "C17_b", "C17_c", "C17_m", "C20_a", "C20_a2", "C20_b", "C20_c", "C20_d"}
